@@ -21,6 +21,8 @@ var legScopes = map[string][]string{
 		"mail-is-fetchable-by-address", "size-is-length"},
 	"C04": {"mail-is-fetchable-by-address", "mailbox-name-is-a-fixed-point", "acknowledged-mail-is-stored"},
 	"C05": {"accept-rule", "origin-rule", "store-rule", "sys-smtp-replies", "stored-once-per-acknowledged-recipient", "acknowledged-mail-is-stored"},
+	"C07": {"ids-distinct", "listing-", "get-returns-asked-message", "no-nil-nil", "listed-message-was-delivered", "delivered-stays", "deleted-means-gone",
+		"no-crash", "no-deadlock", "store-construction", "op-error"},
 	"C08": {"cap-bound", "size-bound", "delivered-stays", "no-crash", "no-deadlock", "store-construction", "op-error"},
 	"C14": {"sys-rest-", "rest-", "go-client-", "missing-is-404", "listed-is-fetchable", "removed-is-gone", "failed-request-changes-nothing", "request-changes-only-what-it-says",
 		"held-message-is-found", "api-is-served-under-the-base-path", "webui-", "nothing-is-served-outside-the-base-path", "root-redirects-to-the-base-path",
@@ -65,6 +67,8 @@ func attach(id string, leg func(c *core.Ctx)) {
 func init() {
 	attach("C01", func(c *core.Ctx) { sysLegN(c, 600, 8000) })
 	attach("C04", func(c *core.Ctx) { sysLegN(c, 400, 6000) })
+	// the ordered-mailbox contract under concurrent clients (ids unique, listings = deliveries in order, get returns the asked message)
+	attach("C07", func(c *core.Ctx) { c09Legs(c, map[string]bool{"mem-plain": true, "file-plain": true}) })
 	// the limits under concurrent use (the accounting of the size enforcer drifts only when removals race with its evictions)
 	attach("C08", func(c *core.Ctx) {
 		c09Legs(c, map[string]bool{"mem-cap": true, "mem-limit": true, "mem-cap-limit": true, "stress-mem": true})
